@@ -24,7 +24,8 @@ Names == <<
   [sym |-> "<N3>", id |-> 3, quoted |-> FALSE, ns |-> FALSE],    \* latin word
   [sym |-> "<N4>", id |-> 4, quoted |-> FALSE, ns |-> TRUE],     \* namespaced  skill:bow
   [sym |-> "<N5>", id |-> 5, quoted |-> TRUE,  ns |-> FALSE],    \* quoted, with a blank
-  [sym |-> "<N6>", id |-> 6, quoted |-> TRUE,  ns |-> FALSE]>>   \* quoted, ending in a digit
+  [sym |-> "<N6>", id |-> 6, quoted |-> TRUE,  ns |-> FALSE],    \* quoted, ending in a digit
+  [sym |-> "<N7>", id |-> 7, quoted |-> FALSE, ns |-> FALSE]>>   \* latin word that begins like a dice operator (dex)
 
 \* value table: written text, numeric value as a dyadic rational n/d, whether it is an int
 Values == <<
